@@ -440,6 +440,93 @@ pub fn run_scenario(sc: &Scenario, seed0: u64, v: &Verdicts, st: &Mutex<Stats>) 
     c.shutdown();
 }
 
+/// Catch-ups that are longer than anything a queue between the supervisor and the link holds at once: the primary holds
+/// 90-600 keys (or 90-600 keys changed while the joiner was away) when the node (re)joins. Every key that is live on the
+/// primary must be there on the joiner afterwards, every line of the catch-up the primary produced must have crossed the
+/// link. (Values are not compared here: the line format of the catch-up garbles them, which is a listed finding.)
+fn large_catch_ups(v: &Verdicts, runs: usize, seed0: u64) -> serde_json::Value {
+    let totals = Mutex::new((0u64, 0u64, 0u64, 0u64));
+    let next = std::sync::atomic::AtomicUsize::new(0);
+    std::thread::scope(|sc| {
+        for _ in 0..workers().min(8) {
+            let (next, totals) = (&next, &totals);
+            sc.spawn(move || loop {
+                let i = next.fetch_add(1, std::sync::atomic::Ordering::SeqCst);
+                if i >= runs {
+                    break;
+                }
+                let mut r = Rng::new(seed0.wrapping_mul(9_000_011).wrapping_add(i as u64));
+                let n = 2 + (i / 2) % 2;
+                let Some(mut c) = form_cluster(n, r.next(), "c05l") else {
+                    v.inconclusive("cluster formation failed");
+                    continue;
+                };
+                c.budget = 200_000;
+                let full = i % 2 == 0;
+                let nkeys = [90usize, 130, 250, 600][(i / 2) % 4];
+                c.open_session("p", 0);
+                c.call("p", "auth admin pwd");
+                c.call("p", "create-db big tok");
+                c.call("p", "use-db big tok");
+                c.call("p", "set first some value");
+                let write_all = |c: &mut Cluster, round: usize| {
+                    for j in 0..nkeys {
+                        c.send("p", &format!("set key{:04} some value {} {}", j, round, j));
+                    }
+                    let _ = c.run_until_quiet();
+                };
+                if full {
+                    write_all(&mut c, 0);
+                }
+                let _ = c.run_until_quiet();
+                c.kill_node(1);
+                if full {
+                    c.wipe_disk(1);
+                }
+                let _ = c.run_until_quiet();
+                if !full {
+                    // the joiner keeps its disk and its operation log: what changed while it was away is the catch-up
+                    write_all(&mut c, 1);
+                }
+                let before_links = c.link_log().len();
+                let all: Vec<usize> = (0..n).collect();
+                c.start_node(1, 10_000, &all);
+                let q = c.run_until_quiet();
+                if !matches!(q, Outcome::Quiet(_)) || !c.panics().is_empty() {
+                    v.report(json!({"check": "resync", "problem": if c.panics().is_empty() { "no-quiescence-after-rejoin" } else { "service-thread-panicked" }, "context": "catch-up-of-more-than-a-hundred-commands"}), json!({"keys": nkeys, "outcome": format!("{:?}", q), "panics": c.panics()}));
+                    c.shutdown();
+                    continue;
+                }
+                let links = c.link_log();
+                let since: Option<u64> = links[before_links..].iter().find(|l| l.1 == 1 && l.2 == 0 && l.3.starts_with("replicate-since ")).and_then(|l| l.3.rsplit(' ').next().and_then(|x| x.parse().ok()));
+                let sync_kind = match since { Some(0) => "full", Some(_) => "incremental", None => "none-requested" };
+                let lines = links[before_links..].iter().filter(|l| l.1 == 0 && l.2 == 1 && l.3.starts_with("replicate big key")).count();
+                let prim = snapshot_of(&c, 0);
+                let join = snapshot_of(&c, 1);
+                let pk: BTreeSet<String> = prim.get("big").map(|d| d.2.keys().filter(|k| k.starts_with("key")).cloned().collect()).unwrap_or_default();
+                let jk: BTreeSet<String> = join.get("big").map(|d| d.2.keys().filter(|k| k.starts_with("key")).cloned().collect()).unwrap_or_default();
+                let missing: Vec<&String> = pk.difference(&jk).collect();
+                {
+                    let mut t = totals.lock().unwrap();
+                    t.0 += 1;
+                    t.1 += lines as u64;
+                    t.2 += pk.len() as u64;
+                    t.3 = t.3.max(lines as u64);
+                }
+                if pk.len() != nkeys {
+                    v.inconclusive("large catch-up: the primary does not hold the keys that were written");
+                } else if !missing.is_empty() || lines < nkeys {
+                    v.report(json!({"check": "resync", "problem": if lines < nkeys { "catch-up-lines-lost-between-supervisor-and-link" } else { "key-missing-on-joiner" }, "context": "catch-up-of-more-than-a-hundred-commands", "sync": sync_kind}),
+                        json!({"nodes": n, "keys_on_primary": pk.len(), "keys_on_joiner": jk.len(), "catch_up_lines_that_crossed_the_link": lines, "first_missing": missing.iter().take(5).collect::<Vec<_>>(), "joiner_kept_its_disk": !full}));
+                }
+                c.shutdown();
+            });
+        }
+    });
+    let t = totals.into_inner().unwrap();
+    json!({"runs": t.0, "catch_up_lines_that_crossed_the_link": t.1, "keys_compared_for_presence": t.2, "longest_catch_up_lines": t.3})
+}
+
 pub fn run(tier: &str) -> i32 {
     std::env::set_var("NUN_ELECTION_TIMEOUT", "30");
     quiet_panics();
@@ -467,6 +554,8 @@ pub fn run(tier: &str) -> i32 {
             });
         }
     });
+    let large = large_catch_ups(&v, if thorough { 96 } else { 8 }, seed());
+    ev.set("catch_ups_of_more_than_a_hundred_commands", large);
     let s = st.into_inner().unwrap();
     let race = sync_race(&v, if thorough { 1500 } else { 150 }, seed());
     ev.set("free_running_sync_race", json!({"attempts": race.attempts, "full_syncs": race.full, "incremental_syncs": race.incremental, "attempts_where_the_catch_up_was_served_between_live_writes": race.overlapped, "link_lines_replayed": race.lines, "keys_judged": race.keys_judged}));
